@@ -103,6 +103,10 @@ Exts ==
   \cup UNION {{Case("ext", <<>>, kf[1], kf[2], <<[name |-> n, vt |-> "any", cls |-> c]>>) : n \in WellKnownExt, c \in {"true", "zero", "str"}}
           : kf \in {x \in KindFlavours : AdmitsExt(x[1], x[2])}}
   \cup {Case("ext", <<>>, "schema", "", <<[name |-> n, vt |-> "any", cls |-> c]>>) : c \in Payloads, n \in UnknownNames}
+  \* a schema $ref with one sibling member (legal JSON, and what a "$ref with a description / readOnly / example" looks like)
+  \cup {Case("ext", <<>>, "schema", "", <<M("schema", "$ref", "refLocal"), M("schema", kw, CHOOSE c \in NFClasses(VTypeOf("schema", kw), FALSE) : TRUE)>>)
+         : kw \in {k \in Optional("schema", "") : VTypeOf("schema", k) # "ref"}}
+  \cup {Case("ext", <<>>, "schema", "", <<M("schema", "$ref", "refRemote"), [name |-> n, vt |-> "any", cls |-> "str"]>>) : n \in {"unknownKeyword", "x-ext"}}
   \cup {Case("ext", <<>>, "schema", "", <<[name |-> "x-ext", vt |-> "any", cls |-> "str"],
                                             [name |-> "unknownKeyword", vt |-> "any", cls |-> "obj"]>>)}
 
